@@ -40,6 +40,7 @@ func round6(c *Ctx) {
 		r6NumbersKeptAsText(c)
 		r6HugeUnsigned(c)
 		r8SmallFloats(c)
+		r9ListsThatWereNeverAllocated(c)
 	case "C04":
 		r8ObjectsOfNumbers(c)
 		r9ListsOfBytesAndTaggedFields(c)
@@ -648,5 +649,27 @@ func r9EmptyObjectsAcrossCarriers(c *Ctx) {
 	for _, q := range []string{"$.meta.Any()", `$.meta.Select("$.x")`, "$.items[@.extra.Any()].Count()", `$.meta.RemoveKeysByPrefix("a")`, `$.meta.RemoveKeysByRegex(".").IsEmpty()`, "$.meta.Count()", "$.meta.IsEmpty()", "$.meta.Sum()",
 		"$.meta.IsNullOrEmpty()", "$.p.Any()", `$.p.Select("$.x").Count()`, "$.meta.AsJSON()", "$.items.extra.Count()", "$.meta.First()", "$.meta.x?.IsNull()"} {
 		c.sameAcross(q, []string{"empty-map", "struct-without-fields"}, []*TV{mk(em), mk(es)}, "round9/empty-objects-across-carriers")
+	}
+}
+
+// lists that were never allocated (nil slices of int, string, bool, float64, decimal - the unset slice fields of a Go struct) as
+// arguments given by path, alone and next to other arguments: they hold no candidates, like any other empty list
+func r9ListsThatWereNeverAllocated(c *Ctx) {
+	nilOf := func(k string) *TV { return &TV{T: "slice", EI: 0, Nil: 1, K: k, V: []*TV{}} }
+	emptyOf := func(k string) *TV { return &TV{T: "slice", EI: 0, K: k, V: []*TV{}} }
+	emptyAny := func(string) *TV { return tvSlice(1) }
+	doc := func(mk func(string) *TV, asStruct bool) *TV {
+		if asStruct {
+			return tvStruct([][3]any{{"ID", 1, tvInt("int", "12")}, {"Five", 1, tvF64(5)}, {"Name", 1, tvStr("n")}, {"Allowed", 1, mk("")}, {"Names", 1, mk("str")}, {"Flags", 1, mk("bool")}, {"Prices", 1, mk("f64")}, {"Decs", 1, mk("dec")}})
+		}
+		return tvMap("str", [][2]any{kv("ID", tvInt("int", "12")), kv("Five", tvF64(5)), kv("Name", tvStr("n")), kv("Allowed", mk("")), kv("Names", mk("str")), kv("Flags", mk("bool")), kv("Prices", mk("f64")), kv("Decs", mk("dec"))})
+	}
+	names := []string{"empty-any-lists", "nil-typed-lists-in-a-struct", "nil-typed-lists-in-a-map", "empty-typed-lists-in-a-struct"}
+	docs := []*TV{doc(emptyAny, false), doc(nilOf, true), doc(nilOf, false), doc(emptyOf, true)}
+	for _, l := range []string{"Allowed", "Names", "Flags", "Prices", "Decs"} {
+		for _, q := range []string{"$.ID.AnyOf($." + l + ")", "$.ID.AnyOf($." + l + ",12)", "$.ID.AnyOf(12,$." + l + ")", "$.Five.Less($." + l + ",6)", "$.Name.AnyOf($." + l + ",\"n\")", "$.ID.NotEqual($." + l + ",12)",
+			"$.Five.Sum($." + l + ")", "$.ID.AnyOf($." + l + ",$.Names,12)"} {
+			c.sameAcross(q, names, docs, "round9/lists-that-were-never-allocated")
+		}
 	}
 }
